@@ -91,6 +91,7 @@ def run_session(d, rule, load, quit_after, limit, total_so_far):
     with contextlib.redirect_stderr(io.StringIO()):
         sess.run(load_session=load, limit=limit)
     meta['in_omen_at_quit'] = bool(pcfg.omen_exit)
+    meta['quit_requested'] = bool(pcfg.should_exit)      # False: the session ran to its end (nothing is saved then, and there is nothing to resume)
     meta['queue_empty_at_end'] = len(sess.pqueue.p_queue) == 0
     meta['saved'] = dict(save_config.items('guessing_info')) if os.path.exists(save_filename) else None
     meta['omen_guess_num'] = pcfg.omen_guess_num
@@ -160,7 +161,8 @@ def main():
                 else:
                     if m2['restore_omen_called']:
                         why = 'session 1 did not stop inside a Markov level but session 2 resumed one'
-                if why is None and m3['restore_omen_called'] != m2['in_omen_at_quit']:
+                # (only when session 2 was really interrupted: a session that ran to completion saves nothing, and loading it again is not a resume)
+                if why is None and m2['quit_requested'] and m3['restore_omen_called'] != m2['in_omen_at_quit']:
                     why = ('session 3 %s a Markov remainder although session 2 %s inside a Markov level (first quit after guess %d, second after %d more)'
                            % ('replays' if m3['restore_omen_called'] else 'does not resume', 'stopped' if m2['in_omen_at_quit'] else 'did not stop', j, k))
                 if why:
